@@ -191,10 +191,41 @@ class T(ast.NodeTransformer):
         self.counts["T1"] += 1
         return [ast.copy_location(fdef, node), ast.copy_location(call, node)]
 
+    def _search_loop(self, node):
+        """T1 (search form):  for x in E: if C: return V      (C, V free of calls, no else)
+           ->  __pyvc_r = __pyvc__.search(E, lambda x: C, lambda x: V)
+               if __pyvc_r is not __pyvc__.NOTFOUND: return __pyvc_r[0]
+        The loop returns V for the FIRST element satisfying C and falls through when none does."""
+        if node.orelse or len(node.body) != 1 or not isinstance(node.body[0], ast.If):
+            return node
+        iff = node.body[0]
+        if iff.orelse or len(iff.body) != 1 or not isinstance(iff.body[0], ast.Return) or iff.body[0].value is None:
+            return node
+        for part in (iff.test, iff.body[0].value):
+            for n in ast.walk(part):
+                if isinstance(n, (ast.Call, ast.Await, ast.Yield, ast.YieldFrom, ast.NamedExpr, ast.Lambda)):
+                    return node
+        try:
+            c = self._lam(node.target, iff.test)
+            v = self._lam(node.target, iff.body[0].value)
+        except NotImplementedError:
+            return node
+        self.counts["T1"] += 1
+        self.loop_no += 1
+        rname = f"__pyvc_r{self.loop_no}"
+        assign = ast.Assign(targets=[ast.Name(id=rname, ctx=ast.Store())],
+                            value=ast.Call(func=self._rt("search"), args=[node.iter, c, v], keywords=[]))
+        test = ast.Compare(left=ast.Name(id=rname, ctx=ast.Load()), ops=[ast.IsNot()], comparators=[self._rt("NOTFOUND")])
+        ret = ast.Return(value=ast.Subscript(value=ast.Name(id=rname, ctx=ast.Load()), slice=ast.Constant(value=0), ctx=ast.Load()))
+        return [ast.copy_location(assign, node), ast.copy_location(ast.If(test=test, body=[ret], orelse=[]), node)]
+
     def visit_For(self, node):
         self.generic_visit(node)
         if node.orelse or not node.body:
             return node
+        r = self._search_loop(node)
+        if r is not node:
+            return r
         r = self._append_loop(node)
         if r is not node:
             return r
